@@ -13,21 +13,22 @@
 package interp
 
 import (
-	"sort"
 	"fmt"
 	"go/token"
 	"go/types"
+	"sort"
 	"strings"
 
 	"golang.org/x/tools/go/ssa"
 )
 
 type kvEntry struct {
-	key []value
-	val value  // []value or *blob
-	ver uint64 // commit version that wrote the entry (Badger's item version)
-	ck  string // the key as a string when every byte of it is concrete
-	cc  bool   // ck is valid
+	key  []value
+	val  value  // []value or *blob
+	ver  uint64 // commit version that wrote the entry (Badger's item version)
+	ck   string // the key as a string when every byte of it is concrete
+	cc   bool   // ck is valid
+	life int    // delete markers: the process lifetime (count of Opens of the disk) they were written in
 }
 
 type kvWrite struct {
@@ -80,6 +81,8 @@ type kvDisk struct {
 	// delete markers (key, version of the commit that deleted it): what an incremental
 	// backup has to carry besides the live entries
 	tombs []kvEntry
+	// number of times the database was opened
+	lifetime int
 }
 
 // apply makes one commit durable: the next version, the live entries and the
@@ -89,7 +92,7 @@ func (d *kvDisk) apply(p *pathState, ws []kvWrite) {
 	d.ents = p.applyWritesV(d.ents, ws, d.version)
 	for _, w := range ws {
 		if w.del {
-			d.tombs = append(d.tombs[:len(d.tombs):len(d.tombs)], kvEntry{key: w.key, ver: d.version, ck: w.ck, cc: w.cc})
+			d.tombs = append(d.tombs[:len(d.tombs):len(d.tombs)], kvEntry{key: w.key, ver: d.version, ck: w.ck, cc: w.cc, life: d.lifetime})
 		}
 	}
 }
@@ -100,6 +103,10 @@ func (d *kvDisk) reset() { d.ents, d.tombs, d.version = nil, nil, 0 }
 type kvDB struct {
 	disk   *kvDisk
 	closed bool
+	// Options.CompactL0OnClose: Close compacts level 0, which discards the delete markers no open
+	// transaction can still need — modelled as: those written in an earlier process lifetime (datahub
+	// keeps a transaction open for the lifetime of the process, which pins the ones written in it)
+	compactOnClose bool
 	// badger's transaction limits (db.go: maxBatchSize = 15% of MemTableSize,
 	// maxBatchCount = maxBatchSize / skl.MaxNodeSize (96)); a transaction reaching
 	// either gets ErrTxnTooBig from Set/Delete (txn.go checkSize)
@@ -437,8 +444,10 @@ func init() {
 			return tuple{(*value)(nil), fr.i.mkError("Cannot acquire directory lock on \"" + dir + "\".  Another process is using this Badger database.")}
 		}
 		d.open = true
+		d.lifetime++
 		p.env.fsMkdir(dir)
 		kd := &kvDB{disk: d}
+		kd.compactOnClose, _ = o[fieldIndex(t, "CompactL0OnClose")].(bool)
 		if mts, ok := o[fieldIndex(t, "MemTableSize")].(int64); ok && mts > 0 {
 			kd.maxBatchSize = 15 * mts / 100
 			kd.maxBatchCount = kd.maxBatchSize / 96
@@ -469,6 +478,15 @@ func init() {
 		d := db(args[0])
 		d.closed = true
 		d.disk.open = false
+		if d.compactOnClose {
+			var keep []kvEntry
+			for _, t := range d.disk.tombs {
+				if t.life >= d.disk.lifetime {
+					keep = append(keep, t)
+				}
+			}
+			d.disk.tombs = keep
+		}
 		return iface{}
 	})
 	runIn := func(fr *frame, d *kvDB, update bool, fn value) value {
@@ -511,7 +529,9 @@ func init() {
 		s.updateLease(fr.i.path)
 		return tuple{box(s), iface{}}
 	})
-	M("DB", "RunValueLogGC", func(fr *frame, args []value) value { return iface{errorType, "Value log GC attempt didn't result in any cleanup"} })
+	M("DB", "RunValueLogGC", func(fr *frame, args []value) value {
+		return iface{errorType, "Value log GC attempt didn't result in any cleanup"}
+	})
 	M("DB", "Flatten", func(fr *frame, args []value) value { return iface{} })
 	M("DB", "Sync", func(fr *frame, args []value) value { return iface{} })
 	M("DB", "Size", func(fr *frame, args []value) value { return tuple{int64(0), int64(0)} })
